@@ -24,8 +24,12 @@ TRUSTED_BASE = [
 
 
 def sh(cmd, cwd=None, timeout=None, stdin=None, env=None):
-    p = subprocess.run(cmd, cwd=cwd, env=env or ENV, stdout=subprocess.PIPE, stderr=subprocess.PIPE,
-                       timeout=timeout, input=stdin, shell=isinstance(cmd, str))
+    try:
+        p = subprocess.run(cmd, cwd=cwd, env=env or ENV, stdout=subprocess.PIPE, stderr=subprocess.PIPE,
+                           timeout=timeout, input=stdin, shell=isinstance(cmd, str))
+    except subprocess.TimeoutExpired as e:
+        # a harness that does not finish is reported by the callers as a crash (exit 124), never as a Python error
+        return 124, (e.stdout or b"").decode(errors="replace"), (e.stderr or b"").decode(errors="replace") + "\nTIMEOUT after %ss: %s" % (timeout, cmd if isinstance(cmd, str) else " ".join(map(str, cmd[:6])))
     return p.returncode, p.stdout.decode(errors="replace"), p.stderr.decode(errors="replace")
 
 
@@ -526,9 +530,9 @@ def sched_exploration(run, harness, label, args, tags, lin=True):
     d = os.path.join(run.work, label)
     os.makedirs(d, exist_ok=True)
     if args and args[0].startswith("file="):
-        rc, o, e = sh([harness, "schedreplay", "out=" + d] + args, timeout=3000)
+        rc, o, e = sh([harness, "schedreplay", "out=" + d] + args, timeout=900)
     else:
-        rc, o, e = sh([harness, "sched", "out=" + d] + args, timeout=3000)
+        rc, o, e = sh([harness, "sched", "out=" + d] + args, timeout=1500)
     if rc != 0:
         sig = "%s: scheduler harness crashed" % label
         path = write_replay(run, label + "_crash", {"kind": "harness-crash", "cmd": ["sched"] + args, "stderr": e[-4000:]})
